@@ -10,10 +10,11 @@ import (
 	"github.com/rs/zerolog/log"
 )
 
-var k = koanf.New(".")
-
 // updatePackageInfoFromArgs overrides the fields in packageInfo using command-line arguments
 func updatePackageInfoFromArgs(packageInfo *packaging.PackageInfo, configArgs map[string]string) error {
+	// a fresh instance per call: in watch mode this runs once per regeneration, and keys of a section that
+	// has been removed from _package.yml since the last one must not survive
+	k := koanf.New(".")
 	if err := k.Load(structs.Provider(packageInfo, "yaml"), nil); err != nil {
 		log.Panic().Msgf("error loading package info: %v", err)
 	}
